@@ -4,6 +4,7 @@ import (
 	"bytes"
 	"fmt"
 	"math/big"
+	"regexp"
 	"sort"
 )
 
@@ -17,6 +18,9 @@ import (
 // moved coin has to be.
 
 func init() { register("C10", genC10) }
+
+// the denom rule of the bank module, restated (not taken from the SDK)
+var c10DenomRe = regexp.MustCompile(`^[a-zA-Z][a-zA-Z0-9/:._-]{2,127}$`)
 
 func c10Monitor(rep *Report, c *L1Case) {
 	tr := c.Track
@@ -75,6 +79,9 @@ func c10Monitor(rep *Report, c *L1Case) {
 			kind := "deposit"
 			if d.nested {
 				kind = "nested deposit"
+			}
+			if !c10DenomRe.MatchString(d.op.Denom) {
+				l1Violate(rep, c, i, "C10:invalid-denom-accepted", fmt.Sprintf("a %s of %s of the invalid denom %q into bridge %d was accepted (sequence %d consumed, event emitted)", kind, d.op.Amt, d.op.Denom, b, d.seq))
 			}
 			if !created[b] {
 				l1Violate(rep, c, i, "C10:deposit-to-nonexistent-bridge", fmt.Sprintf("a %s to bridge id %d, which was never created, was accepted", kind, b))
@@ -247,6 +254,22 @@ func c10Script(sc *L1Scenario, tier int) {
 		}
 		if r.Chance(8) {
 			sc.discardStep()
+			continue
+		}
+		if r.Chance(10) { // zero (and one) amount x every invalid-denom shape, into an existing or any bridge
+			bad := []string{"x", "ab", "1stake", "u stake", "", "uinit!", "u" + string(bytes.Repeat([]byte("x"), 128))}
+			ex := sc.existingBridges()
+			for _, d := range bad {
+				b := uint64(1 + r.Intn(5))
+				if len(ex) > 0 && r.Chance(80) {
+					b = ex[r.Intn(len(ex))]
+				}
+				amt := int64(0)
+				if r.Chance(20) {
+					amt = 1
+				}
+				sc.DepositOp(e.User(uint64(1+r.Intn(7))).Str, b, "l2recipient", d, amt, nil)
+			}
 			continue
 		}
 		if r.Chance(18) {
